@@ -111,10 +111,12 @@ import (
 	"fmt"
 	"io"
 	"log"
+	"math/rand"
 	"net"
 	"net/http"
 	"net/http/httptest"
 	"sort"
+	"strconv"
 	"strings"
 	"testing"
 	"time"
@@ -125,6 +127,7 @@ import (
 	egcontext "github.com/megaease/easegress/pkg/context"
 	"github.com/megaease/easegress/pkg/logger"
 	"github.com/megaease/easegress/pkg/object/httpserver"
+	"github.com/megaease/easegress/pkg/protocols/httpprot"
 	"github.com/megaease/easegress/pkg/protocols/mqttprot"
 	"github.com/megaease/easegress/pkg/supervisor"
 	"github.com/megaease/easegress/pkg/util/limitlistener"
@@ -142,7 +145,8 @@ type c17HConn struct {
 	Reqs   int    `json:"reqs"`
 	IdleUs int64  `json:"idle_us"`
 	HoldUs int64  `json:"hold_us"`
-	End    string `json:"end"` // close | reset | half
+	End    string `json:"end"`     // close | reset | half
+	SlowMs int64  `json:"slow_ms"` // http-rt with rt_rules: the backend takes that long for each request of this connection
 }
 
 type c17HClient struct {
@@ -150,8 +154,9 @@ type c17HClient struct {
 }
 
 type c17Resize struct {
-	GapUs int64 `json:"gap_us"`
-	Cap   int   `json:"cap"`
+	GapUs   int64 `json:"gap_us"`
+	Cap     int   `json:"cap"`
+	Restart bool  `json:"restart"` // http-rt: the reload also changes keepAliveTimeout, which makes the runtime restart its http.Server
 }
 
 type c17MOp struct {
@@ -190,6 +195,7 @@ type c17Scenario struct {
 	MAdmin      []c17MDel    `json:"m_admin"`     // mqtt: session deletes through the admin handler
 	DiscYields  int          `json:"disc_yields"` // mqtt: > 0 = a Disconnect pipeline is configured; its handler passes that many gates ...
 	DiscUs      int64        `json:"disc_us"`     // ... and takes that long
+	RtRules     bool         `json:"rt_rules"`    // http-rt: the server has a rule that routes every path to a backend (harness handler, may be slow)
 	PubPipe     bool         `json:"pub_pipe"`    // mqtt: a Publish pipeline is configured; it lets wills on .../ok pass, drops those on .../drop and answers Disconnect to those on .../disc
 }
 
@@ -212,6 +218,21 @@ func c17Gen(rng *sim.Rand, tier string) interface{} {
 	}
 	return sc
 }
+
+// c17GenRestarts switches the http-rt family "reloads that restart the
+// http.Server (keepAliveTimeout changes) while requests are in flight" on.
+const c17GenRestarts = true
+
+// c17GenSlowBeyondShutdown lets backend requests outlast the 30 s grace period
+// of the runtime's http.Server.Shutdown. Before commit 5e38b14 such a
+// connection survived the restart and the new listener admitted maxConnections
+// more (C17.http-cap-exceeded-across-restart; closeServer now closes what
+// Shutdown left open).
+const c17GenSlowBeyondShutdown = true
+
+// c17SerializeRestarts makes the admin task wait for the end of a restart
+// before it issues the next reload (see there).
+const c17SerializeRestarts = true
 
 func c17GenHTTP(rng *sim.Rand, sc *c17Scenario) {
 	sc.Cap = rng.Pick(1, 1, 2, 2, 3, 4, 6)
@@ -257,6 +278,36 @@ func c17GenHTTP(rng *sim.Rand, sc *c17Scenario) {
 			cp = rng.Range(1, 7)
 		}
 		sc.Admin = append(sc.Admin, c17Resize{GapUs: int64(rng.Pick(0, 0, 0, 1, 100, 5000, 100000, 1000000)), Cap: cp})
+	}
+	if c17GenRestarts && sc.Kind == "http-rt" && rng.Bool(0.45) {
+		// a backend behind the server, slow for some connections (long poll,
+		// streaming, slow upstream), and reloads that restart the http.Server
+		sc.RtRules = true
+		slowP := float64(rng.Pick(0, 30, 60)) / 100
+		for c := range sc.HClients {
+			for k := range sc.HClients[c].Conns {
+				if rng.Bool(slowP) {
+					sc.HClients[c].Conns[k].SlowMs = int64(rng.Pick(1, 100, 3000, 40000, 40000, 100000))
+					if !c17GenSlowBeyondShutdown && sc.HClients[c].Conns[k].SlowMs > 3000 {
+						sc.HClients[c].Conns[k].SlowMs = int64(rng.Pick(100, 1000, 3000))
+					}
+					if sc.HClients[c].Conns[k].Reqs == 0 {
+						sc.HClients[c].Conns[k].Reqs = 1
+					}
+				}
+			}
+		}
+		if len(sc.Admin) == 0 {
+			sc.Admin = append(sc.Admin, c17Resize{GapUs: int64(rng.Pick(0, 1, 100, 5000, 100000, 1000000)), Cap: sc.Cap})
+		}
+		for i := range sc.Admin {
+			if rng.Bool(0.6) {
+				sc.Admin[i].Restart = true
+				if rng.Bool(0.5) {
+					sc.Admin[i].Cap = sc.Cap // the cap itself stays as it is
+				}
+			}
+		}
 	}
 }
 
@@ -481,6 +532,40 @@ type c17H struct {
 	sig         strings.Builder
 
 	sawSaturated, sawHeldBack, sawShrinkBelow, sawUnsettledAccept, sawSettle bool
+
+	// http-rt reloads that restart the http.Server
+	seq                int
+	restarts           int
+	restartPending     bool
+	lastRestartDone    int
+	restartSinceSettle bool
+	born               map[int]int // connection id -> sequence number of its dial / accept
+	listens            int         // listeners the runtime has created
+	sawDropByRestart   bool
+	sawOldAndNew       bool
+}
+
+func (h *c17H) tick() int { h.seq++; return h.seq }
+
+func (h *c17H) bear(id int) {
+	if _, ok := h.born[id]; !ok {
+		h.born[id] = h.tick()
+	}
+}
+
+// mayDrop: the statement protects established connections against a change
+// of maxConnections; it is silent about a reload that restarts the server
+// (here: keepAliveTimeout changed). Connections that exist while such a reload
+// is under way, or existed before it completed, may be closed by the server.
+func (h *c17H) mayDrop(id int) bool {
+	if h.restarts == 0 {
+		return false
+	}
+	if h.restartPending {
+		return true
+	}
+	b, ok := h.born[id]
+	return ok && b < h.lastRestartDone
 }
 
 func (h *c17H) note(format string, a ...interface{}) {
@@ -525,8 +610,14 @@ func (h *c17H) quiescent() string {
 	if h.teardown {
 		return ""
 	}
+	if h.restartPending && !h.adminBusy() {
+		h.restartPending = false
+		h.lastRestartDone = h.tick()
+		h.note("restarted")
+	}
 	if !h.settled && !h.adminBusy() && h.nOpen+h.acceptPending <= h.lastCap {
 		h.settled = true
+		h.restartSinceSettle = false
 		h.caps = []int{h.lastCap}
 		h.sawSettle = true
 		h.note("applied cap=%d open=%d", h.lastCap, h.nOpen)
@@ -538,6 +629,14 @@ func (h *c17H) quiescent() string {
 }
 
 func (h *c17H) onAccept(id int) {
+	h.bear(id)
+	if h.restarts > 0 && !h.restartPending {
+		for o := range h.open {
+			if b, ok := h.born[o]; ok && b < h.lastRestartDone {
+				h.sawOldAndNew = true // a connection of the previous http.Server is still open
+			}
+		}
+	}
 	h.open[id] = true
 	h.nOpen++
 	h.accepted++
@@ -553,8 +652,20 @@ func (h *c17H) onAccept(id int) {
 		return
 	}
 	if h.nOpen > b {
-		if h.settled {
+		oldOpen := false
+		for o := range h.open {
+			if bo, ok := h.born[o]; ok && o != id && h.restarts > 0 && bo < h.lastRestartDone {
+				oldOpen = true
+			}
+		}
+		if h.settled && !oldOpen {
 			h.r.Violate("C17.http-cap-exceeded", "connection c%d accepted while %d connections were open and maxConnections=%d is in force\nhistory: %s", id, h.nOpen-1, h.lastCap, h.history())
+		} else if (h.restartSinceSettle || oldOpen) && !c17GenSlowBeyondShutdown {
+			// reported and awaiting a decision; with the switch off it can still be
+			// reached when scheduler stalls stretch a request beyond the 30 s
+			h.r.Probe("http.cap_exceeded_across_restart_candidate")
+		} else if h.restartSinceSettle || oldOpen {
+			h.r.Violate("C17.http-cap-exceeded-across-restart", "connection c%d accepted as number %d open at once after a reload that restarted the http.Server; every maxConnections value configured since the last applied one is smaller: %v (connections of the previous http.Server are still open and served, the new listener counts from zero)\nhistory: %s", id, h.nOpen, h.caps, h.history())
 		} else {
 			h.r.Violate("C17.http-resize-overshoot", "connection c%d accepted as number %d while maxConnections was being changed; every cap configured since the last applied one is smaller: %v\nhistory: %s", id, h.nOpen, h.caps, h.history())
 		}
@@ -568,6 +679,11 @@ func (h *c17H) onServerClose(id int) {
 	delete(h.open, id)
 	h.nOpen--
 	h.note("sclose c%d open=%d", id, h.nOpen)
+	if !h.teardown && !h.clientClosing[id] && h.mayDrop(id) {
+		h.sawDropByRestart = true
+		delete(h.served, id)
+		return
+	}
 	if !h.teardown && !h.clientClosing[id] {
 		h.r.Violate("C17.http-established-dropped", "the server closed connection c%d although its client had not closed it (caps since last applied: %v)\nhistory: %s", id, h.caps, h.history())
 	}
@@ -658,8 +774,43 @@ type c17NoMapper struct{}
 
 func (c17NoMapper) GetHandler(name string) (egcontext.Handler, bool) { return nil, false }
 
-func c17ServerYAML(cap int) string {
-	return fmt.Sprintf("name: c17srv\nkind: HTTPServer\nport: 10080\nkeepAlive: true\nkeepAliveTimeout: 1000h\nhttps: false\nmaxConnections: %d\n", cap)
+func c17ServerYAML(cap int, kat int, rules bool) string {
+	y := fmt.Sprintf("name: c17srv\nkind: HTTPServer\nport: 10080\nkeepAlive: true\nkeepAliveTimeout: %dh\nhttps: false\nmaxConnections: %d\n", 1000+kat, cap)
+	if rules {
+		y += "rules:\n- paths:\n  - pathPrefix: /\n    backend: c17-backend\n"
+	}
+	return y
+}
+
+// c17Backend is the mux mapper and the handler behind the http-rt server's
+// rule: it answers 200 after the time the request path asks for
+// (/c17/slow/<ms>).
+type c17Backend struct {
+	r       *sim.Run
+	slowRan bool
+}
+
+func (b *c17Backend) GetHandler(name string) (egcontext.Handler, bool) {
+	if name == "c17-backend" {
+		return b, true
+	}
+	return nil, false
+}
+
+func (b *c17Backend) Handle(ctx *egcontext.Context) string {
+	if req, ok := ctx.GetRequest(egcontext.DefaultNamespace).(*httpprot.Request); ok {
+		if i := strings.Index(req.Path(), "/slow/"); i >= 0 {
+			if ms, err := strconv.Atoi(req.Path()[i+6:]); err == nil && ms > 0 && ms <= 600000 {
+				b.slowRan = true
+				b.r.Sleep(time.Duration(ms) * time.Millisecond)
+			}
+		}
+	}
+	resp, _ := httpprot.NewResponse(nil)
+	resp.SetStatusCode(http.StatusOK)
+	resp.SetPayload([]byte("ok"))
+	ctx.SetResponse(egcontext.DefaultNamespace, resp)
+	return ""
 }
 
 // settle waits (in simulated time) until cond holds. Every premature wake-up
@@ -705,7 +856,7 @@ func c17ExecHTTP(r *sim.Run, sc *c17Scenario) {
 	defer simnet.SetDefault(nil)
 	defer n.Shutdown()
 
-	h := &c17H{r: r, open: map[int]bool{}, clientClosing: map[int]bool{}, served: map[int]bool{},
+	h := &c17H{r: r, open: map[int]bool{}, clientClosing: map[int]bool{}, served: map[int]bool{}, born: map[int]int{},
 		caps: []int{sc.Cap}, lastCap: sc.Cap, settled: true, doubleClose: sc.DoubleClose, acceptErrs: map[int]bool{}}
 	for _, k := range sc.AcceptErrs {
 		h.acceptErrs[k] = true
@@ -713,42 +864,63 @@ func c17ExecHTTP(r *sim.Run, sc *c17Scenario) {
 	h.adminBusy = func() bool { return false }
 	const addr = ":10080"
 
-	var resize func(cap int)
+	var resize func(cap int, restart bool)
 	var shutdown func()
+	backend := &c17Backend{r: r}
 
 	if sc.Kind == "http-rt" {
+		for _, op := range sc.Admin {
+			if op.Restart {
+				// http.Server.Shutdown closes idle connections under its own mutex
+				n.GateOnClose = false
+				// and polls with a jitter drawn from the global math/rand
+				rand.Seed(1)
+			}
+		}
 		gracenet.ListenHook = func(network, a string) (net.Listener, error) {
 			l, err := n.Listen(network, a)
 			if err != nil {
 				return nil, err
 			}
+			h.listens++
 			h.sim, _ = l.(*simnet.Listener)
 			return &c17Lis{Listener: l, h: h}, nil
 		}
 		defer func() { gracenet.ListenHook = nil }()
-		spec, err := supervisor.NewSpec(c17ServerYAML(sc.Cap))
+		spec, err := supervisor.NewSpec(c17ServerYAML(sc.Cap, 0, sc.RtRules))
 		if err != nil {
 			r.Violate("C17.harness", "server spec: %v", err)
 			return
 		}
 		hs := &httpserver.HTTPServer{}
-		hs.Init(spec, c17NoMapper{})
+		hs.Init(spec, backend)
 		var want interface{} = spec.ObjectSpec()
-		h.adminBusy = func() bool { return interface{}(httpserver.VerifC17AppliedSpec(hs)) != want }
+		// the runtime records the new spec before it shuts the old http.Server
+		// down: a restart is only over when the new listener exists
+		h.adminBusy = func() bool {
+			return interface{}(httpserver.VerifC17AppliedSpec(hs)) != want || h.listens < 1+h.restarts
+		}
 		if !c17Settle(r, time.Millisecond, func() bool { return h.sim != nil && !h.adminBusy() }) {
 			r.Violate("C17.harness", "the HTTP server runtime did not start listening (state %s)", httpserver.VerifC17State(hs))
 			hs.Close()
 			return
 		}
-		resize = func(cap int) {
-			next, err := supervisor.NewSpec(c17ServerYAML(cap))
+		kat := 0
+		resize = func(cap int, restart bool) {
+			if restart {
+				kat++
+				h.restarts++
+				h.restartPending = true
+				h.restartSinceSettle = true
+			}
+			next, err := supervisor.NewSpec(c17ServerYAML(cap, kat, sc.RtRules))
 			if err != nil {
 				r.Violate("C17.harness", "server spec: %v", err)
 				return
 			}
 			want = next.ObjectSpec()
 			nhs := &httpserver.HTTPServer{}
-			nhs.Inherit(next, hs, c17NoMapper{})
+			nhs.Inherit(next, hs, backend)
 			hs = nhs
 		}
 		shutdown = func() { hs.Close() }
@@ -767,7 +939,7 @@ func c17ExecHTTP(r *sim.Run, sc *c17Scenario) {
 		go srv.Serve(&c17Outer{Listener: ll, h: h})
 		busy := false
 		h.adminBusy = func() bool { return busy }
-		resize = func(cap int) {
+		resize = func(cap int, restart bool) {
 			busy = true
 			ll.SetMaxConnection(uint32(cap))
 			busy = false
@@ -779,8 +951,8 @@ func c17ExecHTTP(r *sim.Run, sc *c17Scenario) {
 	r.SetInvariant(h.quiescent)
 
 	// one request/response exchange on a raw client connection
-	exchange := func(conn net.Conn, br *bufio.Reader) error {
-		if _, err := conn.Write([]byte("GET /c17 HTTP/1.1\r\nHost: c17\r\n\r\n")); err != nil {
+	exchange := func(conn net.Conn, br *bufio.Reader, path string) error {
+		if _, err := conn.Write([]byte("GET " + path + " HTTP/1.1\r\nHost: c17\r\n\r\n")); err != nil {
 			return err
 		}
 		resp, err := http.ReadResponse(br, nil)
@@ -806,20 +978,38 @@ func c17ExecHTTP(r *sim.Run, sc *c17Scenario) {
 				}
 				r.Sleep(c17Us(op.GapUs))
 				conn, err := c17Dial(r, n, fmt.Sprintf("hdial%02d.%d", ci, oi), "c17:10080")
+				for try := 1; err != nil && h.restarts > 0 && try <= 3 && !r.Violated() && !r.Aborted(); try++ {
+					// the listener is away while the server restarts: come back later
+					r.Probe("http.dial_refused_during_restart")
+					c17Settle(r, time.Second, func() bool { return !h.restartPending })
+					conn, err = c17Dial(r, n, fmt.Sprintf("hdial%02d.%d.%d", ci, oi, try), "c17:10080")
+				}
 				if err != nil {
 					r.Violate("C17.http-established-dropped", "client %d could not even connect: %v", ci, err)
 					return
 				}
 				scn := conn.(*simnet.Conn)
 				id := scn.ID
+				h.bear(id)
 				h.note("dial c%d", id)
+				path := "/c17"
+				if op.SlowMs > 0 {
+					path = fmt.Sprintf("/c17/slow/%d", op.SlowMs)
+				}
 				conn.SetDeadline(time.Now().Add(c17Day))
 				br := bufio.NewReader(conn)
 				for i := 0; i < op.Reqs && i < 8; i++ {
-					if err := exchange(conn, br); err != nil {
+					if err := exchange(conn, br, path); err != nil {
 						if r.Violated() || r.Aborted() {
 							conn.Close()
 							return
+						}
+						if h.mayDrop(id) && !isTimeout(err) {
+							// cut by a restart of the server: not this property's matter
+							h.sawDropByRestart = true
+							delete(h.served, id)
+							h.note("cut c%d", id)
+							break
 						}
 						if isTimeout(err) {
 							r.Violate("C17.http-capacity-not-reused", "client connection c%d was not served within 24h although every other client finished long ago (open=%d caps=%v)\nhistory: %s", id, h.nOpen, h.caps, h.history())
@@ -830,7 +1020,7 @@ func c17ExecHTTP(r *sim.Run, sc *c17Scenario) {
 						conn.Close()
 						return
 					}
-					if !h.served[id] {
+					if !h.served[id] && (h.restarts == 0 || h.open[id]) {
 						h.served[id] = true
 						h.note("served c%d", id)
 						if len(h.served) > h.bound() {
@@ -874,8 +1064,16 @@ func c17ExecHTTP(r *sim.Run, sc *c17Scenario) {
 				h.caps = append(h.caps, op.Cap)
 				h.lastCap = op.Cap
 				h.settled = false
-				h.note("setmax %d open=%d", op.Cap, h.nOpen)
-				resize(op.Cap)
+				h.note("setmax %d open=%d restart=%v", op.Cap, h.nOpen, op.Restart && sc.Kind == "http-rt")
+				resize(op.Cap, op.Restart)
+				if op.Restart && sc.Kind == "http-rt" && c17SerializeRestarts {
+					// the next reload is only issued once this restart is over: a
+					// reload that arrives while the freshly started serve goroutine
+					// has not run yet shuts down / serves the wrong http.Server
+					// (runHTTP1And2Server reads r.server late) - reported
+					// separately, not a matter of this property
+					c17Settle(r, time.Second, func() bool { return !h.restartPending })
+				}
 			}
 		})
 	}
@@ -887,7 +1085,7 @@ func c17ExecHTTP(r *sim.Run, sc *c17Scenario) {
 		ok := c17Settle(r, time.Second, func() bool { return h.settled && h.nOpen == 0 })
 		if !ok && !r.Violated() && !r.Aborted() {
 			if !h.settled {
-				r.Violate("C17.http-resize-not-applied", "all clients have gone but maxConnections=%d is still not in force (open=%d, reserved accept=%d)\nhistory: %s", h.lastCap, h.nOpen, h.acceptPending, h.history())
+				r.Violate("C17.http-resize-not-applied", "all clients have gone but maxConnections=%d is still not in force (open=%d, reserved accept=%d, listeners created=%d, restarting reloads=%d)\nhistory: %s", h.lastCap, h.nOpen, h.acceptPending, h.listens, h.restarts, h.history())
 			} else {
 				r.Violate("C17.http-capacity-not-reused", "all clients have gone but the server still holds %d connections open\nhistory: %s", h.nOpen, h.history())
 			}
@@ -910,7 +1108,7 @@ func c17ExecHTTP(r *sim.Run, sc *c17Scenario) {
 				id := conn.(*simnet.Conn).ID
 				h.note("dial c%d probe", id)
 				conn.SetDeadline(time.Now().Add(c17Day))
-				if exchange(conn, bufio.NewReader(conn)) == nil {
+				if exchange(conn, bufio.NewReader(conn), "/c17") == nil {
 					got++
 					h.note("served c%d probe", id)
 				}
@@ -949,6 +1147,18 @@ func c17ExecHTTP(r *sim.Run, sc *c17Scenario) {
 	}
 	if len(sc.Admin) >= 2 {
 		r.Probe("http.repeated_resize")
+	}
+	if h.restarts > 0 {
+		r.Probe("http.reload_restarted_server")
+	}
+	if h.sawDropByRestart {
+		r.Probe("http.connection_dropped_by_restart")
+	}
+	if h.sawOldAndNew {
+		r.Probe("http.old_server_connection_open_while_new_accepts")
+	}
+	if backend.slowRan {
+		r.Probe("http.slow_backend_request")
 	}
 	if heldBack {
 		r.Nontrivial()
